@@ -12,7 +12,25 @@ import (
 // C20: the real Engine with a scripted TimeProvider. Periods are milliseconds so that a
 // case costs little real time; the stamps the function receives are compared with the
 // model applied to the readings the fake watch actually served.
+// watchProbe: the repository's own Watch reads the system clock: each reading lies between the
+// system time just before and just after it (a reading ahead of the clock dates requests into the
+// next slot)
+func watchProbe(prop, id string, out *Out, stats *Stats) {
+	w := clock.NewWatch()
+	for k := 0; k < 2000; k++ {
+		before := time.Now()
+		got := w.Now()
+		after := time.Now()
+		if got.Before(before.Add(-time.Microsecond)) || got.After(after.Add(time.Microsecond)) {
+			out.Violation(prop, id, fmt.Sprintf("clock-reading\tWatch.Now() = %d, the system clock read %d before and %d after", got.UnixNano(), before.UnixNano(), after.UnixNano()))
+			break
+		}
+	}
+	stats.Count("watch-probe")
+}
+
 func runClockSuite(seed uint64, n int, out *Out, stats *Stats) {
+	watchProbe("C20", fmt.Sprintf("clk%d_watch", seed), out, stats)
 	r := NewRng(seed)
 	base := int64(1_700_000_000) * int64(time.Second)
 	for i := 0; i < n; i++ {
